@@ -10,6 +10,10 @@ from ndtcheck.core import Ctx  # noqa: E402
 
 
 def main():
+    import warnings
+    import numpy as np
+    warnings.simplefilter('ignore')
+    np.seterr(all='ignore')
     ap = argparse.ArgumentParser()
     ap.add_argument('prop')
     ap.add_argument('--tier', default=os.environ.get('VERIF_TIER', 'quick'), choices=['quick', 'thorough'])
